@@ -1,4 +1,5 @@
 import OmplModel.Model.Dubins
+import OmplModel.Model.ReedsShepp
 import OmplModel.Driver.Common
 /-! Line-protocol driver for the Dubins model.
 Header `dubins rho=<bits> sym=<0|1> lo=<bits> hi=<bits>` (the bounds are set on the real space only;
@@ -10,6 +11,13 @@ distance and interpolation never read them).  Poses are `x y yaw` as u64 bit pat
     interp <s1> <s2> <t>-> `<x> <y> <yaw>` | `none`                                   interpolate(s1, s2, t)
     endp <s1> <s2>      -> `rev=<b> <W> <t> <p> <q> | <x> <y> <yaw>`                  the path interpolate() stores and
                                                                                      interpolate(from, path, 1.0)
+
+Header `rs rho=<bits> lo=<bits> hi=<bits>` (Reeds-Shepp model, `Model/ReedsShepp.lean`):
+
+    rspath <s1> <s2>       -> `<5 letters> <l0> .. <l4> len=<l>` | `nopath`             reedsShepp(s1, s2)
+    rsinterp <s1> <s2> <t> -> `<x> <y> <yaw>` | `none`                                 interpolate(s1, s2, t)
+    rsend <s1> <s2>        -> `<x> <y> <yaw>` | `nopath`                               interpolate(from, reedsShepp(s1,s2), 1.0)
+    both <s1> <s2>         -> `rs=<d> rsrev=<d> dub=<d> dubrev=<d>`                    RS and (plain) Dubins distance both ways
 -/
 namespace OmplModel.Driver.DubinsDrv
 open OmplModel.Dubins OmplModel.Driver
@@ -17,6 +25,7 @@ open OmplModel.Dubins OmplModel.Driver
 structure St where
   rho : Float
   sym : Bool
+  rs : Bool := false
 
 def kv? (key : String) (tok : String) : Option String :=
   if tok.startsWith (key ++ "=") then some (tok.drop (key.length + 1)).toString else none
@@ -28,7 +37,12 @@ def init (ts : List String) : Option St :=
     let s ← kv? "sym" s
     let _ ← (kv? "lo" lo) >>= parseFloatBits?
     let _ ← (kv? "hi" hi) >>= parseFloatBits?
-    if s == "0" then pure ⟨r, false⟩ else if s == "1" then pure ⟨r, true⟩ else none
+    if s == "0" then pure ⟨r, false, false⟩ else if s == "1" then pure ⟨r, true, false⟩ else none
+  | ["rs", r, lo, hi] => do
+    let r ← (kv? "rho" r) >>= parseFloatBits?
+    let _ ← (kv? "lo" lo) >>= parseFloatBits?
+    let _ ← (kv? "hi" hi) >>= parseFloatBits?
+    pure ⟨r, false, true⟩
   | _ => none
 
 def pose? : List String → Option (Pose Float)
@@ -49,7 +63,46 @@ def showRes : Res Float → String
 
 def showPose (P : Pose Float) : String := joinSp [floatBits P.x, floatBits P.y, floatBits P.th]
 
-def step (st : St) (ts : List String) : St × String :=
+def showRS (p : OmplModel.RS.RSPath Float) : String :=
+  String.join ((OmplModel.RS.rsType p.ty).map OmplModel.RS.RSeg.letter) ++ " " ++
+    joinSp (p.lens.map floatBits) ++ " len=" ++ floatBits p.len
+
+def optBits : Option Float → String
+  | some x => floatBits x
+  | none => "none"
+
+def stepRS (st : St) (ts : List String) : St × String :=
+  match ts with
+  | ["rspath", a, b, c, d, e, f] =>
+    match pose? [a, b, c], pose? [d, e, f] with
+    | some s1, some s2 =>
+      match OmplModel.RS.reedsSheppStates st.rho s1 s2 with
+      | some p => (st, showRS p)
+      | none => (st, "nopath")
+    | _, _ => (st, "bad-op")
+  | ["rsinterp", a, b, c, d, e, f, t] =>
+    match pose? [a, b, c], pose? [d, e, f], parseFloatBits? t with
+    | some s1, some s2, some t =>
+      match OmplModel.RS.rsInterpolate st.rho s1 s2 t with
+      | some P => (st, showPose P)
+      | none => (st, "none")
+    | _, _, _ => (st, "bad-op")
+  | ["rsend", a, b, c, d, e, f] =>
+    match pose? [a, b, c], pose? [d, e, f] with
+    | some s1, some s2 =>
+      match OmplModel.RS.reedsSheppStates st.rho s1 s2 with
+      | some p => (st, showPose (OmplModel.RS.rsInterpPath st.rho s1 p 1))
+      | none => (st, "nopath")
+    | _, _ => (st, "bad-op")
+  | ["both", a, b, c, d, e, f] =>
+    match pose? [a, b, c], pose? [d, e, f] with
+    | some s1, some s2 =>
+      (st, "rs=" ++ optBits (OmplModel.RS.rsDistance st.rho s1 s2) ++ " rsrev=" ++ optBits (OmplModel.RS.rsDistance st.rho s2 s1) ++
+        " dub=" ++ optBits (distance st.rho false s1 s2) ++ " dubrev=" ++ optBits (distance st.rho false s2 s1))
+    | _, _ => (st, "bad-op")
+  | _ => (st, "bad-op")
+
+def stepD (st : St) (ts : List String) : St × String :=
   match ts with
   | ["path", a, b, c, d, e, f] =>
     match pose? [a, b, c], pose? [d, e, f] with
@@ -83,5 +136,8 @@ def step (st : St) (ts : List String) : St × String :=
       | .unclassified => (st, "unclassified")
     | _, _ => (st, "bad-op")
   | _ => (st, "bad-op")
+
+def step (st : St) (ts : List String) : St × String :=
+  if st.rs then stepRS st ts else stepD st ts
 
 end OmplModel.Driver.DubinsDrv
